@@ -8,7 +8,7 @@ import shutil
 LEVEL = "model_checking"
 
 KINDS = ["File", "ContentFile", "IFile", "FileSet", "ContentFileSet", "IFileSet", "Dir", "ContentDir", "IDir"]
-OPS = ["delete", "truncate", "rewrite", "touch", "add-member", "remove-member", "none"]
+OPS = ["delete", "truncate", "rewrite", "touch", "add-member", "remove-member", "rewrite-keep-stat", "none"]
 NESTED_OPS = ["truncate-nested", "rewrite-nested", "touch-nested", "delete-nested"]  # Dir kinds only: a member inside a sub-directory
 COUNT = {"make": 0}
 
@@ -103,6 +103,18 @@ def apply_op(kind, path, op, step):
             return False
         with open(target, "w") as f:
             f.write("external" + "x" * (step + 1))
+        return True
+    if op == "rewrite-keep-stat":
+        # other bytes, same length, modification time put back (rsync -t, cp -p, two writes within one timestamp tick): only the CONTENT changed
+        if not os.path.exists(target):
+            return False
+        st = os.stat(target)
+        data = open(target, "rb").read()
+        if not data:
+            return False
+        with open(target, "wb") as f:
+            f.write(bytes((b + 1 + step) % 256 for b in data))
+        os.utime(target, ns=(st.st_atime_ns, st.st_mtime_ns))
         return True
     if op == "touch":
         if not os.path.exists(target):
@@ -266,7 +278,7 @@ def run(ctx):
         "re_executions_observed": sum(r["reexec"] for r in res), "exhaustive": True,
         "rule": f"for each of 9 file value classes, returned bare, nested in a list (thorough: dict), or held by keyword (thorough: also by position) in "
         "a lazy call that is the producer's cached result, every history of {L} external changes "
-        "(delete, truncate, rewrite with new size, touch with new logical mtime, add member, remove member, the same on a member inside a "
+        "(delete, truncate, rewrite with new size, touch with new logical mtime, same-length rewrite with the mtime restored, add member, remove member, the same on a member inside a "
         "sub-directory for Dir classes, nothing; delete followed by the re-run "
         "covers 'recreate'), each followed by a run of main -> make(path) on the shared backend; oracle: the run never raises, make re-executes "
         "iff the class is not immutable and the filesystem fingerprint (members with size+mtime, or content; computed by the harness, not by "
